@@ -15,6 +15,7 @@ for d in sorted(glob.glob("/verif/seeded/*/")):
     det = [k for k, r in sorted(runs.items()) if r["exit"] == 1]
     miss = [k for k, r in sorted(runs.items()) if r["exit"] == 0]
     summ = m.get("summary", "") + " — needs: " + m.get("needs_to_manifest", "")
+    summ = summ.replace("|", "\\|")
     rows.append((name, m["property"], ", ".join(files), summ, ", ".join(det) or "-", ", ".join(miss) or "-"))
 print("| seeded change | property | files | what it is / what it needs | detected by | run without detection |")
 print("|---|---|---|---|---|---|")
